@@ -130,8 +130,15 @@ impl Querier for Q {
         unimplemented!()
     }
 }
+/// the caller's environment: symbolic block height, and a transaction index (7) that must reach every handler
+pub const TX_INDEX: u32 = 7;
 pub fn env(h: u64) -> Env {
-    Env { block: BlockInfo { height: h, time: Timestamp::from_nanos(0), chain_id: String::new() }, transaction: None, contract: ContractInfo { address: Addr::unchecked("") } }
+    Env { block: BlockInfo { height: h, time: Timestamp::from_nanos(0), chain_id: String::new() }, transaction: Some(cosmwasm_std::TransactionInfo { index: TX_INDEX }),
+          contract: ContractInfo { address: Addr::unchecked("") } }
+}
+/// what a handler observed of env.transaction (0 = none)
+pub fn tx_marker(e: &Env) -> u64 {
+    match &e.transaction { Some(t) => t.index as u64 + 1, None => 0 }
 }
 pub fn info(sender_len: u8) -> MessageInfo {
     // sender of 0..=2 bytes; funds empty (Coin vectors are costly for CBMC and only moved by the code under test)
